@@ -320,4 +320,44 @@ theorem burnRun_eq (pid : Nat) (s : State) : burnRun pid s = burnDeposits pid s 
   · simp [h]
   · simp [h]
 
+theorem activateSteps_order : activateSteps =
+    ["sdkCtx", "startTime=blockTime", "setVotingStart", "var", "getParams", "periodByExpedited", "customPeriod",
+     "endTime=start+period", "setVotingEnd", "setStatusVoting", "setProposal", "removeInactive", "setActive:votingEnd"] := rfl
+
+/-- **`ActivateVotingPeriod`, statement by statement, is the model's `activate`**: start = block time, period = default of the
+kind, then the custom period of the message type, end = START + period, the proposal stored with start, end and status,
+the inactive entry removed, the active entry written under the STORED end -/
+theorem activateRun_eq (s : State) (p : Proposal) : activateRun s p = activate s p := by
+  unfold activateRun
+  rw [activateSteps_order]
+  have n1 : ∀ l, activateStep l "sdkCtx" = l := fun _ => rfl
+  have n2 : ∀ l, activateStep l "var" = l := fun _ => rfl
+  have n3 : ∀ l, activateStep l "getParams" = l := fun _ => rfl
+  have e1 : ∀ l, activateStep l "startTime=blockTime" = { l with start := l.s.time } := fun _ => rfl
+  have e2 : ∀ l, activateStep l "setVotingStart" = { l with p := { l.p with votingStart := l.start } } := fun _ => rfl
+  have e3 : ∀ l, activateStep l "periodByExpedited" =
+      { l with period := if l.p.expedited then l.s.params.expVotingPeriod else l.s.params.votingPeriod } := fun _ => rfl
+  have e4 : ∀ l, activateStep l "customPeriod" =
+      (match getCustom l.s.custom (propTypeP l.p.msgs) with
+       | some c => { l with period := c.votingPeriod }
+       | none => l) := fun _ => rfl
+  have e5 : ∀ l, activateStep l "endTime=start+period" = { l with endT := l.p.votingStart + l.period } := fun _ => rfl
+  have e6 : ∀ l, activateStep l "setVotingEnd" = { l with p := { l.p with votingEnd := l.endT } } := fun _ => rfl
+  have e7 : ∀ l, activateStep l "setStatusVoting" = { l with p := { l.p with status := .voting } } := fun _ => rfl
+  have e8 : ∀ l, activateStep l "setProposal" = { l with s := { l.s with props := putProp l.s.props l.p } } := fun _ => rfl
+  have e9 : ∀ l, activateStep l "removeInactive" =
+      { l with s := { l.s with inactive := removeQ (l.p.depositEnd, l.p.id) l.s.inactive } } := fun _ => rfl
+  have e10 : ∀ l, activateStep l "setActive:votingEnd" =
+      { l with s := { l.s with active := insertQ (l.p.votingEnd, l.p.id) l.s.active } } := fun _ => rfl
+  simp only [List.foldl, n1, n2, n3, e1, e2, e3, e5, e6, e7, e8, e9, e10]
+  rw [e4]
+  have h1 : activationDefaultByExpedited = true := rfl
+  have h2 : activationUsesCustomPeriod = true := rfl
+  have h3 : customPeriodLookupOk = true := rfl
+  have h4 : activationQueueKeyIsVotingEnd = true := rfl
+  simp only [activate, activationQueueTime, activationPeriod, h1, h2, h3, h4, Bool.true_and, Bool.and_true, if_true]
+  cases hc : getCustom s.custom (propTypeP p.msgs) with
+  | none => cases he : p.expedited <;> simp
+  | some c => simp
+
 end FxVerif.Proofs.C15
